@@ -131,8 +131,18 @@ func (k Keeper) CalculateBatchAllocation(ctx context.Context, auction types.Auct
 		mInfo.RefundMap[bidder] = reservedAmtByBidder[bidder].Sub(bidderRes.PayingAmount)
 	}
 
+	// The matched flag reflects this matching only: a bid matched at an earlier
+	// (provisional) end time that is no longer matched must not stay flagged.
+	matchedIds := make(map[uint64]struct{}, len(matchRes.MatchedBids))
 	for _, bid := range matchRes.MatchedBids {
-		bid.SetMatched(true)
+		matchedIds[bid.Id] = struct{}{}
+	}
+	for _, bid := range bids {
+		_, isMatched := matchedIds[bid.Id]
+		if bid.IsMatched == isMatched {
+			continue
+		}
+		bid.SetMatched(isMatched)
 		if err := k.Bid.Set(ctx, collections.Join(bid.AuctionId, bid.Id), bid); err != nil {
 			return mInfo, err
 		}
